@@ -1,7 +1,10 @@
 (* statement pins and axiom audit for C08 (compiled on every check; regenerate BY HAND with driver/mkpins.py) *)
 From ChiaV.Base Require Import Bytes.
 From ChiaV.Clvm Require Import Sexp Ints.
-From ChiaV.Bundle Require Import SolutionGen SexpProofs SolutionGenProofs.
+From ChiaV.Clvm Require Import TreeHash.
+From ChiaV.Gen Require Import Opcodes Builder.
+From ChiaV.Cond Require Import Model.
+From ChiaV.Bundle Require Import SolutionGen Interned SpendBundle BlockPath SexpProofs SolutionGenProofs AgreeProofs.
 Open Scope N_scope.
 From ChiaV.Props Require Import C08.
 Check C08_roundtrip :
@@ -21,3 +24,27 @@ Check C08_length_nonvacuous :
               cs_puzzle := [xff; x01; x80]; cs_solution := [x80] |} in
   Forall plain_spend [s] /\ option_map nlen (solution_generator [s]) = Some 58.
 Print Assumptions C08_length_nonvacuous.
+Check C08_agree_rev_partial :
+  forall valid_key (H : bytes -> bytes) K run sig_ok cpb fl gen_args,
+  (forall x args budget,
+     run (Pair (Atom [x01]) x) args budget = if budget <? 20 then Err CostExceeded else Ok (20, x)) ->
+  forall spends g program max_cost,
+  Forall (good_spend H) spends ->
+  bf_interned fl = false ->
+  N.of_nat (length spends) <= MAX_SPENDS_PER_BLOCK ->
+  build_generator spends = Some g -> ser g = Some program ->
+  match mempool_path valid_key H K run sig_ok cpb fl (rev spends) max_cost,
+        run_block_generator2 valid_key H K run sig_ok cpb fl gen_args program (nlen program) (max_cost + overhead cpb) with
+  | Ok m, Ok b => same_summary (overhead cpb) b m
+  | Err _, Err _ => True
+  | _, _ => False
+  end.
+Print Assumptions C08_agree_rev_partial.
+Check C08_overhead_value :
+  forall cpb, overhead cpb = 20 + 2 * cpb.
+Print Assumptions C08_overhead_value.
+Check C08_interned_base_cost :
+  forall cpb fl spends g program,
+  bf_interned fl = true -> build_generator spends = Some g -> ser g = Some program ->
+  calculate_base_cost cpb fl spends = Ok (interned_vbytes g * cpb) /\ parse_node program = Ok g.
+Print Assumptions C08_interned_base_cost.
